@@ -350,7 +350,8 @@ Proof.
   - eapply iterappend_refines; eassumption.
   - eapply truncate_refines; eassumption.
   - eapply setitem_refines; eassumption.
-  - inversion Hex; subst r h' es. cbn [spec_step fst snd is_ok apply_effs fold_left]. split; [reflexivity|].
+  - destruct m as [m|]; [|inversion Hex; subst; cbn; split; [reflexivity|exact HR]].
+    inversion Hex; subst r h' es. cbn [spec_step fst snd is_ok apply_effs fold_left]. split; [reflexivity|].
     unfold Rel. cbn [fst snd s_rows s_nt s_bo s_mode s_meta s_tail with_mode h_mode h_nt h_bo h_shape].
     repeat split; try assumption.
   - rewrite (open_rel _ _ _ m HR) in Hex. inversion Hex; subst r h' es.
